@@ -73,6 +73,15 @@ def cases(draw, tier):
             if flag:
                 spec[key] = [{"src": "t%d" % j, "of": i} for i in ids]
         operands.append(spec)
+    if k >= 2 and draw(st.sampled_from([False] * 7 + [True])):
+        # two operands' IDs that differ only by a trailing blank are
+        # different IDs (no overlap)
+        key_ = "samp" if axis == "sample" else "obs"
+        cand = operands[0][key_][0] + " "
+        if all(cand not in o_[key_] for o_ in operands):
+            operands[-1][key_] = [cand] + operands[-1][key_][1:]
+            for mk_ in ("obs_md", "samp_md"):
+                pass
     overlap = draw(st.sampled_from([False] * 6 + [True, "same-object"]))
     if overlap is True and k < 2:
         overlap = False
